@@ -30,7 +30,7 @@ if ALT_REPO:
     REPLAYS = WORK / "replays"
     EVIDENCE = WORK / "evidence"
 JAVA_CP = "/opt/veriftools/tla/tla2tools.jar:/opt/veriftools/tla/CommunityModules-deps.jar"
-TLA_LIB = ":".join(str(SPEC / d) for d in ("abstract", "impl", "trace", "mc"))
+TLA_LIB = ":".join(str(SPEC / d) for d in ("abstract", "impl", "trace", "mc", "proof"))
 NCPU = os.cpu_count() or 4
 
 
@@ -245,7 +245,7 @@ def tlc_mc(spec_path, cfg_path, tag, workers=8, timeout=3000, xmx="8g", extra=No
 def spec_hash(*paths):
     import hashlib
     h = hashlib.sha256()
-    for d in ("abstract", "impl", "mc"):
+    for d in ("abstract", "impl", "mc", "proof"):
         for f in sorted((SPEC / d).glob("*.tla")):
             h.update(f.read_bytes())
     for p in paths:
@@ -315,6 +315,40 @@ def tlc_mc_cached(spec_path, cfg_path, tag, workers=8, timeout=3000, coverage=Tr
     finally:
         fcntl.flock(lock, fcntl.LOCK_UN)
         lock.close()
+
+
+def apalache_inductive(spec_path, tag, timeout=1800):
+    """Discharge the three obligations of an inductive-invariant argument with Apalache
+    (Init => IndInv; IndInv /\\ Next => IndInv'; IndInv => Safety).  Cached by spec hash."""
+    CACHE.mkdir(parents=True, exist_ok=True)
+    meta = CACHE / (spec_hash(spec_path) + "_" + Path(spec_path).stem + ".apalache.json")
+    if meta.exists():
+        st = json.load(open(meta))
+        st["cached"] = True
+        return st
+    obligations = [("Init => IndInv", ["--init=Init", "--inv=IndInv", "--length=0"]),
+                   ("IndInv /\\ Next => IndInv'", ["--init=IndInit", "--inv=IndInv", "--length=1"]),
+                   ("IndInv => Safety", ["--init=IndInit", "--inv=Safety", "--length=0"])]
+    outdir = WORK / tag / "apalache"
+    res = []
+    t0 = time.time()
+    for name, args in obligations:
+        cmd = ["apalache-mc", "check"] + args + ["--out-dir=" + str(outdir), str(Path(spec_path).resolve())]
+        try:
+            p = subprocess.run(cmd, capture_output=True, text=True, timeout=timeout, cwd=str(Path(spec_path).parent))
+            ok = "EXITCODE: OK" in p.stdout
+        except subprocess.TimeoutExpired:
+            ok = False
+        res.append({"obligation": name, "discharged": ok})
+    shutil.rmtree(outdir, ignore_errors=True)
+    shutil.rmtree(Path(spec_path).parent / "_apalache-out", ignore_errors=True)
+    st = dict(obligations=res, discharged=sum(1 for r in res if r["discharged"]), total=len(res),
+              wall=round(time.time() - t0, 1), cached=False,
+              checker_cmd="apalache-mc check --init=.. --inv=.. --length=0|1 " + Path(spec_path).name)
+    if st["discharged"] == st["total"]:
+        json.dump(st, open(meta, "w"))
+    log(f"[apalache] {Path(spec_path).name}: {st['discharged']}/{st['total']} obligations discharged, {st['wall']}s")
+    return st
 
 
 # --------------------------------------------------------------------------- traces
